@@ -51,6 +51,7 @@ class Project:
         self.delivery = r.choice(["flags", "flags", "toml", "both"])
         self.glob = r.random() < 0.5
         self.removed = []  # names that existed once
+        self.verbose = r.choice([[], [], [], [], [], ["-v", "1"]])  # a chattier build must fail just as loudly
 
     def base_opts(self):
         o = {"color_format": self.fmt, "output_file": "Font" + gen.ext_for(self.fmt)}
@@ -67,14 +68,14 @@ class Project:
         o = self.base_opts()
         srcs = sorted(self.sources)
         if self.delivery == "flags":
-            return [], gen.flag_args(o) + srcs
+            return [], gen.flag_args(o) + self.verbose + srcs
         if self.glob and len({os.path.dirname(s) for s in srcs}) == 1 and not any(ch in s for s in srcs for ch in "[]"):
             toml_srcs = [os.path.dirname(srcs[0]) + "/*.svg"]
         else:
             toml_srcs = srcs
         if self.delivery == "toml":
             text = gen.toml_config(o, toml_srcs)
-            return [{"op": "write", "path": "config.toml", "content": "text:" + text}], ["config.toml"]
+            return [{"op": "write", "path": "config.toml", "content": "text:" + text}], self.verbose + ["config.toml"]
         # both: file carries everything, some options additionally overridden by flag
         keys = sorted(k for k in o if k not in ("color_format", "output_file"))
         over = {k: o[k] for k in keys[::2]}
@@ -84,7 +85,7 @@ class Project:
             if vals:
                 file_o[k] = vals[0]
         text = gen.toml_config(file_o, toml_srcs)
-        return [{"op": "write", "path": "config.toml", "content": "text:" + text}], gen.flag_args(over) + ["config.toml"]
+        return [{"op": "write", "path": "config.toml", "content": "text:" + text}], gen.flag_args(over) + self.verbose + ["config.toml"]
 
 
 def _fault_plan(r, enabled, bitmap=False):
